@@ -136,6 +136,60 @@ def run(ctx):
                               case={"kind": "mono", "rpa": rpa, "rpb": rpb, "pl": pl, "im": im, "wheel": [pt, abi, plat]})
                 if len(ctx.samples) < 3 and ca is not None and rpa != rpb:
                     ctx.sample({"A": str(A), "B": str(B), "wheel": [pt, abi, plat], "A_score": ca, "B_score": cb})
+    # (2b) the wider spec is *derived* from another, already used, spec with dataclasses.replace (per-object state
+    # must not travel with the copy); A is built independently.  Both clauses: requires_python and platform release.
+    import dataclasses
+
+    newer_of = {"manylinux_2_17_x86_64": "manylinux_2_28_x86_64", "manylinux_2_17_aarch64": "manylinux_2_35_aarch64",
+                "musllinux_1_1_x86_64": "musllinux_1_2_x86_64", "macos_11_0_arm64": "macos_14_0_arm64",
+                "macos_10_9_x86_64": "macos_12_0_x86_64"}
+    n_der = 0
+    for idx in range(off, len(combos), step * 3):
+        rpa, rpb, pl, im = combos[idx]
+        rpn = rnd.choice(RPS)
+        try:
+            N = _mk(rpn, pl, im)
+        except Exception:  # noqa: BLE001
+            continue
+        A = _mk(rpa, pl, im)
+        ok_tags = A.platform.compatible_tags if A.platform else ["any"]
+        wheels = [(pt.split("."), [abi], plat) for pt, abi in itertools.product(PYTAGS, ABIS)
+                  for plat in (["any"], [rnd.choice(ok_tags)])]
+        for w in wheels:
+            N.compatibility(*w)          # N answers first (and may remember its answers)
+        B = dataclasses.replace(N, requires_python=P(rpb))
+        ctx.cases += 1
+        n_der += 1
+        for w in wheels:
+            ctx.evaluations += 1
+            bump("rp-monotonic-derived")
+            ca, cb = A.compatibility(*w), B.compatibility(*w)
+            if ca is not None and cb is None:
+                violation(PROP, "rp-monotonic", "a wheel compatible with A is lost by the wider spec B (B derived with "
+                          "dataclasses.replace from a spec that had been used)",
+                          {"A": str(A), "B": str(B), "derived_from": str(N), "wheel": list(w), "score_A": ca, "group": "mono-derived"},
+                          case={"kind": "mono-derived"})
+        # platform clause: B = N moved to a newer release of the same OS/arch
+        if pl in newer_of and A.platform is not None:
+            older_tags = A.platform.compatible_tags
+            N2 = _mk(rpa, pl, im)
+            pw = [(["py3"], ["none"], [t]) for t in rnd.sample(older_tags, min(len(older_tags), 12))]
+            newer = Platform.parse(newer_of[pl])
+            extra = [(["py3"], ["none"], [t]) for t in rnd.sample(newer.compatible_tags, min(6, len(newer.compatible_tags)))]
+            for w in pw + extra:
+                N2.compatibility(*w)
+            B2 = dataclasses.replace(N2, platform=newer)
+            for w in pw + extra:
+                ctx.evaluations += 1
+                bump("platform-monotonic-derived")
+                ca, cb = A.compatibility(*w), B2.compatibility(*w)
+                fresh = _mk(rpa, newer_of[pl], im).compatibility(*w)
+                if (ca is not None and cb is None) or (cb is None) != (fresh is None):
+                    violation(PROP, "platform-nesting", "a spec moved to a newer platform release with dataclasses.replace "
+                              "answers differently from a freshly built one / loses a tag of the older release",
+                              {"A": str(A), "B": str(B2), "wheel": list(w), "score_A": ca, "score_B": cb, "fresh_B": fresh,
+                               "group": "nest-derived"}, case={"kind": "mono-derived"})
+    ctx.extra["derived_spec_cases"] = n_der
     # (3) newer platform release accepts every tag of the older one (whole C09 grid, same os/arch)
     from .c09 import grid
 
@@ -170,6 +224,9 @@ def replay(ctx, case):
         return
     from dep_logic.tags import Platform
 
+    if case["kind"] == "mono-derived":   # sequence-dependent: the shard's workload is repeated as a whole
+        run(ctx)
+        return
     if case["kind"] == "compare":
         a, b = _mk(*[tuple(x) if isinstance(x, list) else x for x in case["a"]]), _mk(*[tuple(x) if isinstance(x, list) else x for x in case["b"]])
         a.compare(b)
